@@ -576,6 +576,28 @@ Proof.
 Qed.
 
 (* ------------------------------------------------------------------ *)
+(* make_surrounding_span (used by the parser to span a node from its first
+   to its last token): if both ids decode to in-range spans of one file and
+   the first starts no later than the second ends, no assert fires and the
+   result decodes to (file, first start, last end)                         *)
+
+Theorem surrounding_span_valid C m ia ib c sa ea sb eb :
+  consts_ok C -> wf m ->
+  get_span C m ia = Ok (c, sa, ea) -> get_span C m ib = Ok (c, sb, eb) ->
+  in_range m (c, sb, eb) -> sa <= eb ->
+  exists m' id, make_surrounding_span C m ia ib = Ok (m', id) /\
+                (small m' -> get_span C m' id = Ok (c, sa, eb)).
+Proof.
+  intros HC Hwf Ha Hb (lo & hi & Hg & Hsb & Hhi) Hse.
+  unfold make_surrounding_span. rewrite Ha. cbn [obind]. rewrite Hb. cbn [obind].
+  rewrite N.eqb_refl. cbn [negb].
+  destruct (N.leb_spec sa eb) as [_|]; [|lia]. cbn [negb].
+  assert (Hr : in_range m (c, sa, eb)) by (exists lo, hi; auto).
+  destruct (intern_span_roundtrip C m c sa eb HC Hwf Hr) as (m' & id & H1 & _ & _ & H2).
+  exists m', id. auto.
+Qed.
+
+(* ------------------------------------------------------------------ *)
 (* stack-trace cropping                                                *)
 
 Theorem crop_slices_in_range stack_len max_trace f h s :
